@@ -86,6 +86,7 @@ def split_req(draw, S):
         r["param"] = draw(st.integers(1, S + 1))
     elif kind == "nonuniform":
         r["param"] = sorted(draw(st.sets(st.integers(0, S + 1), min_size=1, max_size=4)))
+        r["as_fiber"] = draw(st.sampled_from([0, 0, 1, 2]))
     elif kind == "equal":
         r["param"] = draw(st.integers(1, 4))
     elif kind == "unequal":
@@ -132,6 +133,10 @@ def call_split(obj, req, depth):
     if k == "uniform":
         return obj.splitUniform(p, **kw)
     if k == "nonuniform":
+        if req.get("as_fiber"):
+            # the boundaries may be handed over as a fiber (the leader / follower idiom): its coordinates count,
+            # whatever its payloads hold (explicit defaults among them)
+            return obj.splitNonUniform(Fiber(list(p), [(i + req["as_fiber"]) % 2 for i in range(len(p))]), **kw)
         return obj.splitNonUniform(list(p), **kw)
     if k == "equal":
         return obj.splitEqual(p, **kw)
